@@ -5,11 +5,10 @@
    `stmts` = number of statements in the body, `in_scope` = those the `_partial` theorems cover;
    `depth_scope` = `okN` (the scope of C20_depth_partial / C20_assert) holds for the body. -/
 import ChibiVerif.Model.Codegen
-import ChibiVerif.Lemmas.C20Typing
-import ChibiVerif.Lemmas.C20Depth
+import ChibiVerif.Model.C20Scope
 
 namespace ChibiVerif.Driver
-open ChibiVerif ChibiVerif.Lemmas.C20
+open ChibiVerif ChibiVerif.C20Scope
 
 def scopeMain (args : List String) : IO UInt32 := do
   match args with
